@@ -26,7 +26,7 @@ def one(job):
         for _ in range(2):
             rc, out = run("go test -vet=off -count=1 ./...", wt)
             if rc: return rid, "SUITEFAIL", out[-300:]
-        rc, out = run(["/verif/bin/mqttverif", "check", "-p", "ALL", "-repo", wt, "-no-evidence"], "/verif")
+        rc, out = run([os.environ.get("BIN", "/verif/bin/mqttverif"), "check", "-p", "ALL", "-repo", wt, "-no-evidence"], "/verif")
         cons = [l.split("construct", 1)[1].strip() for l in out.splitlines() if l.strip().startswith("construct")]
         if "analyser-panic" in out: cons.insert(0, "ANALYSER PANIC")
         return rid, ("ALARM" if "VIOLATION" in out else "SILENT"), "; ".join(cons[:5])
